@@ -7,11 +7,11 @@ def plan(tier, seed):
     w2q = [H("c03::w2_%s" % t, "write::<%s> on cubes around powers of ten and type limits" % t, "base +- d, d<=300") for t in ("u32", "i32", "u64", "i64")]
     groups = []
     if tier == "quick":
-        groups.append(KGroup("D", w1 + w2q, timeout=900, jobs=8, mem_gb=8))
+        groups.append(KGroup("D", w1 + w2q, timeout=900, jobs=8, mem_gb=14))
         rq = ["c03::radix::w3_u8_r2", "c03::radix::w3_i8_r16", "c03::radix::w3_u16_r16", "c03::radix::generic::w3_u8_r36", "c03::radix::generic::w3_u8_r3"]
         rq += pick(["c03::radix::generic::w3_u8_r%d" % r for r in (5, 6, 7, 9, 11, 12, 13, 14, 15, 17, 18, 19, 20, 21, 22, 23, 24, 25, 26, 27, 28, 29, 30, 31, 33, 34, 35)], seed, 3)
-        groups.append(KGroup("R", [H(n, "write_with_options radix writer", "all values") for n in rq], timeout=900, jobs=8, mem_gb=8, label="radix"))
-        groups.append(KGroup("C", w1[:2] + [H("c03::w1_u16", "compact writer", "all values")], timeout=900, jobs=4, mem_gb=8, label="compact"))
+        groups.append(KGroup("R", [H(n, "write_with_options radix writer", "all values") for n in rq], timeout=900, jobs=8, mem_gb=14, label="radix"))
+        groups.append(KGroup("C", w1[:2] + [H("c03::w1_u16", "compact writer", "all values")], timeout=900, jobs=4, mem_gb=14, label="compact"))
         kernels = ["jeaiii_u8", "jeaiii_u16", "jeaiii_u32", "jeaiii_i64"]
     else:
         w2 = w2q + [H("c03::w2_%s" % t, "cubes", "base +- d, d<=300") for t in ("u128", "i128", "usize", "isize")]
@@ -20,9 +20,9 @@ def plan(tier, seed):
                "c03::radix::w3_u8_r32", "c03::radix::w3_u16_r16", "c03::radix::w3_i16_r16", "c03::radix::w3_u16_r2", "c03::radix::w3_i16_r8", "c03::radix::w3_u16_r32", "c03::radix::w3_u16_r4"]
         for r in (3, 5, 6, 7, 9, 10, 11, 12, 13, 14, 15, 17, 18, 19, 20, 21, 22, 23, 24, 25, 26, 27, 28, 29, 30, 31, 33, 34, 35, 36):
             rad += ["c03::radix::generic::w3_u8_r%d" % r, "c03::radix::generic::w3_i16_r%d" % r]
-        groups.append(KGroup("R", [H(n, "radix writer", "all values") for n in rad], timeout=3600, jobs=14, mem_gb=10, label="radix"))
-        groups.append(KGroup("C", w1 + w2q, timeout=3600, jobs=8, mem_gb=10, label="compact"))
-        groups.append(KGroup("CRF", [H(n, "compact radix writer", "all values") for n in rad[:13]] + [H("c03::fmt::w4_u8_plus", "required + sign", "all values"), H("c03::fmt::w4_i8_plus", "", "all values"), H("c03::fmt::w4_i16_plus", "", "all values")], timeout=3600, jobs=14, mem_gb=10, label="compact+radix+format"))
+        groups.append(KGroup("R", [H(n, "radix writer", "all values") for n in rad], timeout=3600, jobs=14, mem_gb=14, label="radix"))
+        groups.append(KGroup("C", w1 + w2q, timeout=3600, jobs=8, mem_gb=14, label="compact"))
+        groups.append(KGroup("CRF", [H(n, "compact radix writer", "all values") for n in rad[:13]] + [H("c03::fmt::w4_u8_plus", "required + sign", "all values"), H("c03::fmt::w4_i8_plus", "", "all values"), H("c03::fmt::w4_i16_plus", "", "all values")], timeout=3600, jobs=14, mem_gb=14, label="compact+radix+format"))
         kernels = ["jeaiii_u8", "jeaiii_u16", "jeaiii_u32", "jeaiii_u64", "jeaiii_i64"]
     return {
         "kani": groups,
